@@ -7,11 +7,13 @@ package main
 
 import (
 	"verif/harness/suites/j2kgeo"
+	t2s "verif/harness/suites/t2"
 	"verif/harness/vhlib"
 )
 
 func main() {
 	s := vhlib.Suites{}
 	j2kgeo.Register(s)
+	t2s.Register(s)
 	vhlib.Main(s)
 }
